@@ -620,7 +620,7 @@ impl SymbolTable {
 
         let mut cursor: Option<Cursor> = None;
         let mut label_map: HashMap<String, SymbolData> = HashMap::new();
-        let mut rel_map = HashMap::new();
+        let mut fill_sites: Vec<(u16, String)> = vec![];
         let mut debug_sym = src.map(|s| {
             let src_info = SourceInfo::new(s);
             (vec![None; src_info.count_lines()], src_info)
@@ -660,13 +660,12 @@ impl SymbolTable {
                     add_label(&mut label_map, label, 0, true)?;
                 }
                 StmtKind::Directive(Directive::Fill(PCOffset::Label(label))) => {
-                    let label_text = label.name.to_uppercase();
-                    if let Some(SymbolData { external: true, .. }) = label_map.get(&label_text) {
-                        let Some(cur) = cursor.as_ref() else {
-                            return Err(AsmErr::new(AsmErrKind::UndetAddrStmt, stmt.span.clone()));
-                        };
-
-                        rel_map.insert(cur.lc, label_text);
+                    // Whether the label is external is only known once every statement has been seen
+                    // (its .external declaration may come after this use), so record the site here
+                    // and keep the external ones after the loop.
+                    // (A .fill outside of a block is reported by pass 2.)
+                    if let Some(cur) = cursor.as_ref() {
+                        fill_sites.push((cur.lc, label.name.to_uppercase()));
                     }
                 },
                 _ => {}
@@ -695,6 +694,10 @@ impl SymbolTable {
         if let Some(cur) = cursor {
             return Err(AsmErr::new(AsmErrKind::UnclosedOrig, cur.block_orig));
         }
+
+        let rel_map = fill_sites.into_iter()
+            .filter(|(_, label)| matches!(label_map.get(label), Some(SymbolData { external: true, .. })))
+            .collect();
         
         let debug_symbols = debug_sym.map(|(lines, src_info)| DebugSymbols {
             line_map: LineSymbolMap::new(lines)
